@@ -7,11 +7,16 @@
    tables never fold an operation on which the VM raises an error (so 1 % 0, 1 << -1 are left
    to the evaluator, which reports the run-time error as an optimizer error); literal
    conditions are rewritten according to run-time truthiness.
+   Expression trees (translation validation): fold_ok e e' decides whether the tree e' which the
+   real optimizer returns for the tree e differs from it only by constant sub-expressions replaced
+   by the literal of their value (whichever of the tables or the evaluator produced it) and literal
+   conditions of ?: replaced by true / false; related trees evaluate alike for all values of the
+   variables.  The check runs the validator on the trees the real parser and optimizer produce.
    Not proved (kept as a definition; decided on every run by differential execution optimizer
    off vs every budget): equivalence for whole programs, which also depends on the scope
    tracking of shadowed builtins, the constant pool and the private evaluator VM. *)
-From Coq Require Import List ZArith Bool Floats.SpecFloat.
-From Ugo Require Import Base.Res Base.GoInt Base.GoFloat Value.PValue Value.Ops Comp.Fold Comp.FoldProofs.
+From Coq Require Import List ZArith Bool Floats.SpecFloat Strings.Byte.
+From Ugo Require Import Base.Res Base.GoInt Base.GoFloat Value.PValue Value.Ops Comp.Fold Comp.FoldProofs Comp.FoldExpr Comp.FoldExprProofs.
 Import ListNotations.
 Local Open Scope Z_scope.
 
@@ -36,4 +41,33 @@ Example C01_refusals :
   fold_binop TShl (LInt 1) (LInt (-1)) = None /\ fold_binop TQuo (LFloat (f64_of_Z 1)) (LFloat (S754_zero true)) = None /\
   fold_binop TShl (LInt 1) (LInt 70) = Some (LInt 0) /\
   fold_unop TSub (LFloat (S754_zero false)) = Some (LFloat (S754_zero true)).
+Proof. vm_compute. repeat split; reflexivity. Qed.
+
+(* translation validation of the optimizer on expression trees: what the validator accepts has the
+   meaning of the original, whatever the values of the variables *)
+Theorem C01_fold_validated :
+  forall e e' locals, fold_ok e e' = true -> oeval locals e' = oeval locals e.
+Proof. exact fold_ok_sound. Qed.
+Print Assumptions C01_fold_validated.
+
+(* a refusal is justified when some sub-expression of the script fails whatever the values of the variables *)
+Theorem C01_refusal_justified :
+  forall e, const_error e = true ->
+  exists s, In s (subexprs e) /\ (forall locals, match oeval locals s with Ok _ => False | _ => True end).
+Proof. exact const_error_witness. Qed.
+Print Assumptions C01_refusal_justified.
+
+Example C01_validator :
+  (* (1 + 2) * x ? "a" + "b" : -(3)   ->   3 * x ? "ab" : -3   is accepted;  3 * x -> 3 + x is not;
+     a condition 0 may become false, not true; 1 % 0 justifies a refusal *)
+  let x := OVar 0 in
+  let i z := OLit (LInt z) in
+  let s c := OLit (LStr [c]) in
+  let ba := Byte.x61 in let bb := Byte.x62 in
+  fold_ok (OCond (OBin TMul (OBin TAdd (i 1) (i 2)) x) (OBin TAdd (s ba) (s bb)) (OUn TSub (i 3)))
+          (OCond (OBin TMul (i 3) x) (OLit (LStr [ba; bb])) (i (-3))) = true /\
+  fold_ok (OBin TMul (i 3) x) (OBin TAdd (i 3) x) = false /\
+  fold_ok (OCond (i 0) x (i 1)) (OCond (OLit (LBool false)) x (i 1)) = true /\
+  fold_ok (OCond (i 0) x (i 1)) (OCond (OLit (LBool true)) x (i 1)) = false /\
+  const_error (OBin TAdd x (OBin TRem (i 1) (i 0))) = true /\ const_error (OBin TAdd x (OBin TRem (i 1) (i 2))) = false.
 Proof. vm_compute. repeat split; reflexivity. Qed.
